@@ -360,7 +360,7 @@ def model_correspondence(run, trees, wits):
     texts = []
     for i in range(0, len(cases), per):
         body = "From Goml Require Import Common.Base C11.Model C11.Proofs.\nOpen Scope nat_scope.\nDefinition cases : list (list tok * expr) := [%s].\n" % ";\n".join(cases[i : i + per])
-        body += "Definition okc (c : list tok * expr) : bool := match parse_expr (fst c) with Some e => expr_eqb e (snd c) | None => false end && list_tok_eqb (print (snd c)) (fst c).\n"
+        body += "Definition okc (c : list tok * expr) : bool := match parse_expr (fst c) with Some e => expr_eqb e (snd c) | None => false end && list_tok_eqb (print (snd c)) (fst c) && C11.Proofs.ok (snd c).\n"
         body += "Eval vm_compute in (length (filter (fun c => negb (okc c)) cases), map N.of_nat (bad_idx (map okc cases))).\n"
         texts.append(body)
     outs = vlib.coq_eval_many("c11model", texts)
